@@ -7,6 +7,7 @@ modality / VOI / presentation / palette colour / real-world-value metadata).
       'rescale':  [{'place': 'image'|'shared'|'perframe', 'vals': [[slope|None, intercept|None], ...]}, ...],
       'window':   [{'place': ..., 'vals': [{'c': [..], 'w': [..], 'expl': [..]|None, 'fn': str|None}, ...]}, ...],
       'voi_luts': [{'first': int, 'bits': 8|16, 'data': [...], 'expl': str|None}, ...],   # VOILUTSequence (image level)
+      'voi_luts_placed': [{'place': 'shared'|'perframe', 'vals': [[lut, ...], ...]}],       # inside FrameVOILUTSequence
       'rwvm':     [{'place': ..., 'vals': [[map, ...], ...]}, ...],
                   map = {'label': str, 'unit': [value, scheme, meaning], 'first': int, 'last': int,
                          'slope': q, 'intercept': q} | {..., 'lut': [q, ...]}  (+ 'double': True for FD first/last)
@@ -163,6 +164,14 @@ def add_transforms(ds, T, n_frames=None):
                 it = Dataset()
                 _window_attrs(it, v)
                 tgt.FrameVOILUTSequence = Sequence([it])
+    for e in T.get('voi_luts_placed') or []:
+        # VOI LUTs inside the Frame VOI LUT functional group (PS3.3 C.7.6.16.2.10b), next to window values if any
+        sh, pf = _groups(ds, n)
+        for tgt, luts in ([(sh, e['vals'][0])] if e['place'] == 'shared' else zip(pf, e['vals'])):
+            if 'FrameVOILUTSequence' not in tgt:
+                tgt.FrameVOILUTSequence = Sequence([Dataset()])
+            tgt.FrameVOILUTSequence[0].VOILUTSequence = Sequence([lut_item(v['first'], v['bits'], v['data'], expl=v.get('expl'),
+                                                                           signed_first=v['first'] < 0) for v in luts])
     if T.get('voi_luts'):
         ds.VOILUTSequence = Sequence([lut_item(v['first'], v['bits'], v['data'], expl=v.get('expl'),
                                                signed_first=v['first'] < 0) for v in T['voi_luts']])
